@@ -29,6 +29,12 @@ fn collections() -> Vec<Vec<T>> {
         vec![q.clone()],
         vec![T::list(vec![T::I(1)]), T::list(vec![a.clone()])],
         vec![T::I(1), a.clone(), b.clone()],
+        // repeated terms in adjacent and non-adjacent positions, longer collections
+        vec![q.clone(), q.clone()],
+        vec![a.clone(), b.clone(), a.clone()],
+        vec![q.clone(), a.clone(), a.clone(), q.clone()],
+        vec![T::I(1), T::I(2), T::I(1), T::I(2)],
+        vec![T::list(vec![a.clone(), b.clone()]), T::list(vec![a.clone(), b.clone()]), T::list(vec![b.clone(), T::I(3)])],
     ]
 }
 
@@ -50,6 +56,9 @@ fn bodies() -> Vec<(Vec<G>, bool)> {
         (vec![G::Closure(Box::new(G::Eq(x.clone(), T::I(1))))], true),
         (vec![G::Eq(x.clone(), T::list(vec![y.clone()]))], true),
         (vec![G::InFd(vec![x.clone()], Dom::Range(1, 2)), G::Fd(FdKind::Lte, vec![x.clone(), T::I(1)])], false),
+        // bodies with several answers per element (multiplicities multiply)
+        (vec![G::Rel(Rel::Member, vec![x.clone(), T::list(vec![T::I(1), T::I(1), T::I(2)])])], false),
+        (vec![G::Conde(vec![vec![G::Eq(x.clone(), q.clone())], vec![G::Eq(x.clone(), y.clone())], vec![G::Succeed]])], true),
     ]
 }
 
@@ -65,7 +74,8 @@ fn cases() -> Vec<CaseF> {
     for coll in collections() {
         for (body, pure) in bodies() {
             // FD bodies need integer-or-variable elements (well-formed programs only)
-            if !pure && coll.iter().any(|t| !matches!(t, T::I(_) | T::V(_))) {
+            let fd_body = body.iter().any(|g| matches!(g, G::InFd(_, _) | G::Fd(_, _)));
+            if fd_body && coll.iter().any(|t| !matches!(t, T::I(_) | T::V(_))) {
                 continue;
             }
             for as_list in [false, true] {
@@ -155,7 +165,7 @@ fn check(den: &Den, c: &CaseF, index: usize) -> (Vec<Violation>, bool) {
 }
 
 pub fn run(ctx: &mut Ctx) {
-    ctx.set("rule", json!("E3: 12 collections of 0..3 terms (ground, repeated, variables shared inside the collection and with the query, nested lists) given as Vec<LTerm> and as an LTerm list x 12 bodies (bind, branch, constrain, fail, succeed, fresh, closure, FD) x 3 contexts: the answers of `for x in coll { body }` equal the answers of the explicit conjunction of the instantiated bodies (multisets of instance sets; canonical answers for FD/onceo bodies) and the reference semantics; the empty collection behaves as `true`. distinct_nontrivial = cases with answers."));
+    ctx.set("rule", json!("E3: 17 collections of 0..4 terms (ground, repeated in adjacent and non-adjacent positions, variables shared inside the collection and with the query, nested and partially ground lists) given as Vec<LTerm> and as an LTerm list x 12 bodies (bind, branch, constrain, fail, succeed, fresh, closure, FD) x 3 contexts: the answers of `for x in coll { body }` equal the answers of the explicit conjunction of the instantiated bodies (multisets of instance sets; canonical answers for FD/onceo bodies) and the reference semantics; the empty collection behaves as `true`. distinct_nontrivial = cases with answers."));
     let den = Den::new(c02::universe2());
     let cs = cases();
     let sel: Vec<usize> = match &ctx.replay {
